@@ -243,9 +243,6 @@ theorem splice0_length (buf new : Bytes) (h : new.length ≤ buf.length) :
 theorem splice0_take (buf new : Bytes) : (Rs.L.splice buf 0 new).take new.length = new := by
   simp [Rs.L.splice]
 
-theorem filled_len' (bs b : Bytes) : ((bs ++ b.drop bs.length).take b.length).length = b.length :=
-  filled_length bs b
-
 /-- the caller's buffer after the inner read into `&mut buf[0..n]` starts with the delivered bytes -/
 theorem buf1_take (bs buf : Bytes) (n : Nat) (hn : n ≤ buf.length) (hb : bs.length ≤ n) :
     (Rs.L.splice buf 0 ((bs ++ (buf.take n).drop bs.length).take n)).take bs.length = bs := by
